@@ -1007,7 +1007,7 @@ func TestVerifC19(t *testing.T) {
 	}
 
 	reachedBy := map[string]map[string]bool{} // method -> credential names that reached it (auth enabled)
-	for id, j := range plan {
+	process := func(id int, j job) {
 		j.s.rec.take()
 		t0 := time.Now()
 		status, resp, detail := c19Do(j.s, j.c, j.wire, j.tg, id+1)
@@ -1041,11 +1041,11 @@ func TestVerifC19(t *testing.T) {
 			if hit != nil {
 				r.Violation("reached-unknown-method/"+full, fmt.Sprintf("a name that is not a method ran %s.%s (server %s, credential %s)", hit.Module, hit.Method, j.s.Name, cname), call)
 			}
-			continue
+			return
 		}
 		if hit != nil && (hit.Module != j.tg.Module || hit.Method != j.tg.Method) {
 			r.Violation("wrong-target/"+full, fmt.Sprintf("call of %s ran %s.%s", full, hit.Module, hit.Method), call)
-			continue
+			return
 		}
 		effective := j.c.Allow
 		if j.c.Transport == "none" {
@@ -1059,7 +1059,7 @@ func TestVerifC19(t *testing.T) {
 		if obs == "other" && hit == nil {
 			// the harness could not tell (undecodable dummy parameter, transport error): reported through L2 as ObsOther
 			r.Count("unclassified_calls", full+": "+why)
-			continue
+			return
 		}
 		if got && j.s.AuthEnabled {
 			if reachedBy[full] == nil {
@@ -1074,6 +1074,50 @@ func TestVerifC19(t *testing.T) {
 		case !got && want:
 			r.Violation("wrongly-refused/"+full+"/"+cname,
 				fmt.Sprintf("%s (declares perm %q) was refused (%s) for credential %q (allow=%v) on server %s over %s", full, j.tg.Declared, obs, cname, effective, j.s.Name, j.wire), call)
+		}
+	}
+	for id, j := range plan {
+		process(id, j)
+	}
+	// ---- a token that expires between two uses (the verdict on a token must not be remembered): minted with a short
+	// lifetime, used while valid, used again after its expiry on the same server
+	if only.Server == "" {
+		const ttl = 2 * time.Second
+		var pick []c19Target
+		seen := map[string]bool{}
+		for _, k := range keys {
+			tg := targets[k]
+			if tg.Chan || !tg.ParamsOK || tg.Declared == "" || seen[tg.Declared] {
+				continue
+			}
+			seen[tg.Declared] = true
+			pick = append(pick, tg)
+		}
+		all := c19Perms(perms.AllPerms)
+		for si, s := range servers {
+			if !s.AuthEnabled {
+				continue
+			}
+			minted := time.Now()
+			tok, err := perms.NewTokenWithTTL(signer, perms.AllPerms, ttl)
+			if err != nil {
+				t.Fatal(err)
+			}
+			in, out := int64(1), int64(-1)
+			fresh := c19Cred{Name: "admin-expiring", Transport: "header", WF: true, SigOK: true, Expiry: &in, Allow: all, Token: string(tok)}
+			stale := c19Cred{Name: "admin-expired-after-use", Transport: "header", WF: true, SigOK: true, Expiry: &out, Allow: all, Token: string(tok)}
+			for i, tg := range pick {
+				if time.Since(minted) > ttl/2 {
+					r.Count("expiring_token", "first use too late (machine load): skipped")
+					break
+				}
+				process(len(plan)+1000*si+i, job{s, fresh, "http", tg})
+			}
+			time.Sleep(time.Until(minted.Add(ttl + 1500*time.Millisecond)))
+			for i, tg := range pick {
+				process(len(plan)+1000*si+100+i, job{s, stale, "http", tg})
+				r.Count("expiring_token", "reused after expiry")
+			}
 		}
 	}
 	for _, k := range batchKeys {
